@@ -22,6 +22,9 @@ CONSTANTS Rcpts,        \* recipient identities
           MaxTriesSet,  \* values of max_tries explored
           MaxList,      \* longest recipient list supplied by the client
           Devs,         \* enabled deviations
+          RwSets,       \* sets of recipients that reached the queue rewritten (C18); {{}} = none
+          Utf8Set,      \* SMTPUTF8 flag values of the message explored
+          BounceStages, \* how a report hand-over may end: "ok", or failing at "start","rcpt","body","commit"
           Gen           \* TRUE: keep the behaviour history and print complete behaviours
 
 VARIABLES cfg,       \* [partial, bounce, nullSender, mt, list]  fixed per behaviour
@@ -33,11 +36,12 @@ VARIABLES cfg,       \* [partial, bounce, nullSender, mt, list]  fixed per behav
           errs,      \* partialError.Errs of the running attempt ("none" = no entry)
           failed,    \* failedRcpts waiting for the failure report
           newTo,     \* newRcpts computed by the classification loop
+          rerr,      \* meta.RcptErrs: class of the last stored error per recipient
           obs,       \* observation state (QueueObs)
           hist       \* behaviour history (Gen only)
 
-vars == <<cfg, phase, to, tries, idx, accepted, errs, failed, newTo, obs, hist>>
-View == <<cfg, phase, to, tries, idx, accepted, errs, failed, newTo, obs>>
+vars == <<cfg, phase, to, tries, idx, accepted, errs, failed, newTo, rerr, obs, hist>>
+View == <<cfg, phase, to, tries, idx, accepted, errs, failed, newTo, rerr, obs>>
 
 NoErrs == [r \in Rcpts |-> "none"]
 Suppress(c) == c.nullSender \/ ~c.bounce
@@ -50,7 +54,8 @@ Dedup(s) == LET RECURSIVE D(_, _)
                              ELSE D(i + 1, Append(acc, s[i]))
             IN D(1, <<>>)
 
-Cfgs == [partial : BOOLEAN, bounce : BOOLEAN, nullSender : BOOLEAN, mt : MaxTriesSet, list : Lists]
+Cfgs == [partial : BOOLEAN, bounce : BOOLEAN, nullSender : BOOLEAN, mt : MaxTriesSet, list : Lists,
+         rw : RwSets, utf8 : Utf8Set]
 
 H(e) == IF Gen THEN Append(hist, e) ELSE hist
 
@@ -60,6 +65,7 @@ InitWith(c) ==
   /\ to = IF "DupRcpt" \in Devs THEN c.list ELSE Dedup(c.list)
   /\ tries = [r \in Rcpts |-> 0]
   /\ idx = 0 /\ accepted = <<>> /\ errs = NoErrs /\ failed = <<>> /\ newTo = <<>>
+  /\ rerr = NoErrs
   /\ obs = ObsInit(Rcpts)
   /\ hist = <<>>
 
@@ -80,6 +86,7 @@ Classify(lst, e, tr, mt) == ClassifyRec(lst, 1, e, tr, <<>>, <<>>, mt)
 AfterAttempt(e) ==
   LET c == Classify(to, e, tries, cfg.mt) IN
   /\ tries' = c.tries
+  /\ rerr' = [r \in Rcpts |-> IF r \in ToSet(to) /\ e[r] # "none" THEN e[r] ELSE rerr[r]]
   /\ errs' = NoErrs /\ accepted' = <<>> /\ idx' = 0
   /\ IF c.failed # <<>> /\ ~Suppress(cfg)
      THEN phase' = "dsn" /\ failed' = c.failed /\ newTo' = c.newTo /\ UNCHANGED to
@@ -92,7 +99,7 @@ QAccept ==
   /\ phase' = "sched"
   /\ obs' = ObsAccept(obs, ToSet(cfg.list))
   /\ hist' = H([a |-> "QAccept"])
-  /\ UNCHANGED <<cfg, to, tries, idx, accepted, errs, failed, newTo>>
+  /\ UNCHANGED <<cfg, to, tries, idx, accepted, errs, failed, newTo, rerr>>
 
 TStart(res) ==
   /\ phase = "sched"
@@ -101,7 +108,7 @@ TStart(res) ==
   /\ UNCHANGED cfg
   /\ IF res = "ok"
      THEN phase' = "rcpt" /\ idx' = 1 /\ accepted' = <<>> /\ errs' = NoErrs
-          /\ UNCHANGED <<to, tries, failed, newTo>>
+          /\ UNCHANGED <<to, tries, failed, newTo, rerr>>
      ELSE AfterAttempt([r \in Rcpts |-> IF r \in ToSet(to) THEN res ELSE "none"])
 
 TAddRcpt(res) ==
@@ -112,7 +119,7 @@ TAddRcpt(res) ==
        /\ IF res = "ok" THEN accepted' = Append(accepted, r) /\ UNCHANGED errs
           ELSE errs' = [errs EXCEPT ![r] = res] /\ UNCHANGED accepted
   /\ idx' = idx + 1
-  /\ UNCHANGED <<cfg, phase, to, tries, failed, newTo>>
+  /\ UNCHANGED <<cfg, phase, to, tries, failed, newTo, rerr>>
 
 TAbortNoRcpt ==
   /\ phase = "rcpt" /\ idx > Len(to) /\ accepted = <<>>
@@ -128,7 +135,7 @@ TBody(res) ==
   /\ errs' = IF res = "ok" THEN errs
              ELSE [r \in Rcpts |-> IF r \in ToSet(accepted) THEN res ELSE errs[r]]
   /\ phase' = "decide"
-  /\ UNCHANGED <<cfg, to, tries, idx, accepted, failed, newTo>>
+  /\ UNCHANGED <<cfg, to, tries, idx, accepted, failed, newTo, rerr>>
 
 TBodyNA(st) ==
   /\ phase = "rcpt" /\ idx > Len(to) /\ accepted # <<>> /\ cfg.partial
@@ -136,7 +143,7 @@ TBodyNA(st) ==
   /\ hist' = H([a |-> "TBodyNA", st |-> st])
   /\ errs' = [r \in Rcpts |-> IF r \in DOMAIN st /\ st[r] # "ok" THEN st[r] ELSE errs[r]]
   /\ phase' = "decide"
-  /\ UNCHANGED <<cfg, to, tries, idx, accepted, failed, newTo>>
+  /\ UNCHANGED <<cfg, to, tries, idx, accepted, failed, newTo, rerr>>
 
 AllFailed == \A r \in ToSet(accepted) : errs[r] # "none"
 
@@ -155,14 +162,21 @@ TCommit(res) ==
   /\ AfterAttempt(IF res = "ok" THEN errs
                   ELSE [r \in Rcpts |-> IF r \in ToSet(accepted) THEN res ELSE errs[r]])
 
-Dsn ==
+\* the report emitDSN builds: listed under the addresses the client supplied, with the
+\* stored last status, null return path, addressed to the sender, original header attached
+ExpectedReport ==
+  [ listed |-> failed, status |-> [r \in ToSet(failed) |-> StatusOf(rerr[r])] ]
+
+Dsn(stage) ==
   /\ phase = "dsn"
-  /\ obs' = ObsDsn(obs, ToSet(failed), Suppress(cfg))
-  /\ hist' = H([a |-> "Dsn", rcpts |-> failed])
+  /\ obs' = IF stage \in {"start", "rcpt"}      \* the hand-over ended before the report body was shown
+            THEN ObsDsn(obs, obs.owed, Suppress(cfg))
+            ELSE ObsReport(ObsDsn(obs, ToSet(failed), Suppress(cfg)), GoodReport(ExpectedReport), cfg.utf8)
+  /\ hist' = H([a |-> "Dsn", rcpts |-> failed, stage |-> stage])
   /\ failed' = <<>> /\ newTo' = <<>>
   /\ IF newTo = <<>> THEN phase' = "quiet" /\ to' = <<>>
      ELSE phase' = "sched" /\ to' = newTo
-  /\ UNCHANGED <<cfg, tries, idx, accepted, errs>>
+  /\ UNCHANGED <<cfg, tries, idx, accepted, errs, rerr>>
 
 Quiesce ==
   /\ phase = "quiet"
@@ -170,7 +184,7 @@ Quiesce ==
   /\ phase' = "end"
   /\ hist' = H([a |-> "Quiesced"])
   /\ IF Gen THEN PrintT(<<"BEH", ToJson([cfg |-> cfg, hist |-> hist'])>>) ELSE TRUE
-  /\ UNCHANGED <<cfg, to, tries, idx, accepted, errs, failed, newTo>>
+  /\ UNCHANGED <<cfg, to, tries, idx, accepted, errs, failed, newTo, rerr>>
 
 Statuses == [ToSet(accepted) -> Res]
 
@@ -178,7 +192,8 @@ Next ==
   \/ QAccept
   \/ \E res \in Res : TStart(res) \/ TAddRcpt(res) \/ TBody(res) \/ TCommit(res)
   \/ \E st \in Statuses : TBodyNA(st)
-  \/ TAbortNoRcpt \/ TAbortAllFailed \/ Dsn \/ Quiesce
+  \/ TAbortNoRcpt \/ TAbortAllFailed \/ Quiesce
+  \/ \E stage \in BounceStages : Dsn(stage)
   \/ (phase = "end" /\ ~Gen /\ UNCHANGED vars)
 
 Spec == Init /\ [][Next]_vars /\ WF_vars(Next)
